@@ -193,20 +193,27 @@ func runC18(w *core.World, r *core.Report) {
 
 	// ---- R2 -----------------------------------------------------------------------------------
 	type site struct {
-		fn, after, target string // function, call that establishes the state, call that needs the language
+		fnF           *ssa.Function
+		fn            string // label of the function
+		afterF, tgtF  *ssa.Function
+		after, target string
 	}
+	roles := resolveEngineRoles(w)
+	var vmRender *ssa.Function = w.Func("vm", "(*Vm).Render")
 	for _, st := range []site{
-		{"(*DefaultEngine).Exec", "engine.(*DefaultEngine).init", "engine.(*DefaultEngine).exec"},
-		{"(*DefaultEngine).init", "engine.(*DefaultEngine).prepare", "engine.(*DefaultEngine).runFirst"},
-		{"(*DefaultEngine).Flush", "", "vm.(*Vm).Render"},
+		{roles.Exec, "(*DefaultEngine).Exec", roles.Init, roles.ExecBackend, "engine init", "engine exec backend"},
+		{roles.Init, "engine init", roles.Prepare, roles.PreVmHook, "engine prepare", "engine pre-VM hook"},
+		{roles.Flush, "(*DefaultEngine).Flush", nil, vmRender, "", "vm.(*Vm).Render"},
 	} {
-		fn := anchor(w, r, "engine", st.fn)
-		if fn == nil {
+		fn := st.fnF
+		if fn == nil || st.tgtF == nil || (st.after != "" && st.afterF == nil) {
+			r.Undecided("R2", "engine: "+st.fn+" / "+st.after+" / "+st.target, token.NoPos, "role not resolved")
 			continue
 		}
-		targets := core.CallsTo(fn, st.target)
+		r.Touch(core.QName(fn))
+		targets := callsToSet(fn, map[*ssa.Function]bool{st.tgtF: true})
 		if len(targets) == 0 {
-			r.Undecided("R2", "engine."+st.fn+": call of "+st.target, fn.Pos(), "call not found")
+			r.Undecided("R2", "engine: "+st.fn+": call of "+st.target, fn.Pos(), "call not found")
 			continue
 		}
 		for _, tc := range targets {
@@ -216,7 +223,7 @@ func runC18(w *core.World, r *core.Report) {
 					ctxArg = a
 				}
 			}
-			key := fmt.Sprintf("engine.%s: language on the context of %s", st.fn, strings.TrimPrefix(st.target, "engine."))
+			key := fmt.Sprintf("engine: %s: language on the context of %s", st.fn, st.target)
 			inj := langInjections(ctxArg, 0, map[ssa.Value]bool{})
 			if len(inj) == 0 {
 				r.Bad("R2", key, tc.Pos(), "the context handed on never receives the \"Language\" value: lookups of this request ignore the session's language")
@@ -244,7 +251,7 @@ func runC18(w *core.World, r *core.Report) {
 			}
 			// after the state is established
 			if st.after != "" && bad == "" {
-				est := core.CallsTo(fn, st.after)
+				est := callsToSet(fn, map[*ssa.Function]bool{st.afterF: true})
 				if len(est) == 0 {
 					bad = "cannot find the call of " + st.after + " that establishes the state"
 				}
@@ -256,7 +263,7 @@ func runC18(w *core.World, r *core.Report) {
 						}
 					}
 					if !domd {
-						bad = fmt.Sprintf("the language is read for injection at %s before %s has established (loaded) the session state: a session resumed from a persister runs its first request without its language", w.Pos(ic.Pos()), strings.TrimPrefix(st.after, "engine."))
+						bad = fmt.Sprintf("the language is read for injection at %s before %s has established (loaded) the session state: a session resumed from a persister runs its first request without its language", w.Pos(ic.Pos()), st.after)
 					}
 				}
 			}
@@ -372,7 +379,7 @@ func runC18(w *core.World, r *core.Report) {
 			}
 		}
 	}
-	r.Floor("R3", "language context writers", nw, 3)
+	r.Floor("R3", "language context writers", nw, 2)
 	r.Floor("R3", "language context readers", nr, 2)
 
 	// ---- R4 -----------------------------------------------------------------------------------
